@@ -290,6 +290,7 @@ class Interp:
         self.steps = 0
         self.rng_calls = []      # (name, args) of every np.random call
         self.stack = []
+        self.class_attrs = {}    # (class, attr) -> shared class-level object
 
     # -- oracle -------------------------------------------------------
     def choose(self, kind, options):
@@ -794,6 +795,14 @@ class Interp:
             owner, fn = self.model.lookup(o.cls, attr)
             if fn is not None:
                 return BoundMethod(o, fn, owner.name)
+            # class-level attribute: one object shared by every instance of the class
+            for c in self.model.mro(o.cls):
+                for s in c.node.body:
+                    if isinstance(s, ast.Assign) and any(isinstance(t, ast.Name) and t.id == attr for t in s.targets):
+                        k = (c.name, attr)
+                        if k not in self.class_attrs:
+                            self.class_attrs[k] = self.ev(s.value, {})
+                        return self.class_attrs[k]
             raise PathCrash("AttributeError: %s object has no attribute %r" % (o.cls, attr))
         if isinstance(o, NArr) and attr in ("tolist", "copy"):
             return ListMethod(o, "copy")
@@ -825,6 +834,14 @@ class Interp:
         if isinstance(o, ClassRef):
             if attr == "__name__":
                 return o.name
+            if o.name in self.model.classes:
+                for c in self.model.mro(o.name):
+                    for s in c.node.body:
+                        if isinstance(s, ast.Assign) and any(isinstance(t, ast.Name) and t.id == attr for t in s.targets):
+                            k = (c.name, attr)
+                            if k not in self.class_attrs:
+                                self.class_attrs[k] = self.ev(s.value, {})
+                            return self.class_attrs[k]
         raise Unsupported("attribute %s on %r" % (attr, o))
 
     def getitem(self, o, i, node):
@@ -1033,6 +1050,12 @@ class Interp:
             return tot
         if n == "print":
             return None
+        if n == "round":
+            v = args[0]
+            if isinstance(v, Num):
+                nd = args[1] if len(args) > 1 else 0
+                return Num(sp.Function("round")(v.sym, _sym(nd)), ("round", v.raw, _raw(nd)))
+            return round(*args)
         if n == "super":
             selfobj = env.get("self")
             owner = env.get("__owner__")
@@ -1158,7 +1181,7 @@ class SymCond:
         return None
 
 
-_BUILTINS = {"dict", "set", "len", "range", "list", "tuple", "enumerate", "zip", "reversed", "int", "float", "bool",
+_BUILTINS = {"round", "dict", "set", "len", "range", "list", "tuple", "enumerate", "zip", "reversed", "int", "float", "bool",
              "isinstance", "abs", "min", "max", "sum", "print", "super"}
 
 
